@@ -165,7 +165,9 @@ def run_cli(argv: list[str], around=None) -> dict:
     exc = result.exception
     tb = ""
     if exc is not None and not isinstance(exc, SystemExit):
-        tb = "".join(traceback.format_exception(type(exc), exc, exc.__traceback__))[-3000:]
+        tb = "".join(traceback.format_exception(type(exc), exc, exc.__traceback__))
+        if len(tb) > 6000:  # keep the outermost frames too (which phase was running) - a RecursionError has ~1000 frames
+            tb = tb[:3000] + "\n  [...]\n" + tb[-3000:]
     out.update(
         exit_code=result.exit_code,
         exception=None if (exc is None or isinstance(exc, SystemExit)) else type(exc).__name__,
